@@ -381,6 +381,8 @@ func ApplyHeader(s State, bh types.BlockHeader, targetTimestamp time.Time) State
 	// sub-second part of an in-memory value must not reach the state, or the
 	// node that built the block computes a different state than its peers.
 	bh.Timestamp = bh.Timestamp.Truncate(time.Second)
+	// likewise for the ancestor's timestamp supplied by the caller
+	targetTimestamp = targetTimestamp.Truncate(time.Second)
 
 	next := s
 	if bh.ParentID == (types.BlockID{}) {
